@@ -159,10 +159,11 @@ func init() {
 		Batches: []batchSpec{
 			{Name: "routes", World: "routes", Weight: 6},
 			{Name: "routes-l2", World: "routes", Weight: 2, Park: 0.005, Gos: 0.02},
+			{Name: "services", World: "services", Weight: 2},
 		},
-		Stub: []string{"network (simnet)", "scripted route owners (independent protocol implementation) stamping and recording every request", "raw HTTP / TLS ClientHello / CONNECT users", "clock"},
-		Rule: "same world as C06 with password-protected http and tcpmux routes mixed with unprotected and user-routed ones on the same hosts; request shapes: origin-form and absolute-form targets, Authorization / Proxy-Authorization in any casing, right, wrong, missing and foreign credentials; oracle: a protected route's backend saw a request only if the request carried exactly its credentials; distinct = distinct event-log hash",
-		Assume: []string{"http_proxy, socks5 and static_file client plugins, the dashboard and the frpc admin API, HTTP/1.0 and h2c request forms are not exercised yet"},
+		Stub: []string{"network (simnet)", "scripted route owners (independent protocol implementation) stamping and recording every request", "raw HTTP / TLS ClientHello / CONNECT / SOCKS5 users", "target server behind the proxy plugins", "clock"},
+		Rule: "batch services: real frps (dashboard API) + real frpc (admin API; static_file, http_proxy and socks5 plugins behind tcp proxies), every service with its own drawn user name and password (colons and spaces allowed in passwords); 4-20 credential variants per service (none, exact, extended/prefix/empty/swapped user or password, malformed base64, another service's credentials) on GET/PUT/POST/DELETE, CONNECT, absolute-form and SOCKS5 sub-negotiation; oracle: served / tunnelled / authenticated implies exact credentials, refusals are challenges (401/407) or closes and reach neither the target nor a state-changing handler. Batches routes: same world as C06 with password-protected http and tcpmux routes mixed with unprotected and user-routed ones on the same hosts; request shapes: origin-form and absolute-form targets, Authorization / Proxy-Authorization in any casing, right, wrong, missing and foreign credentials; oracle: a protected route's backend saw a request only if the request carried exactly its credentials; distinct = distinct event-log hash",
+		Assume: []string{"HTTP/1.0 and h2c request forms are not exercised", "an authorised plain (non-CONNECT) request through the http_proxy plugin and an authorised SOCKS5 CONNECT would dial through net/http's DefaultTransport / go-socks5's dialer, which are outside the network seam: authorised traffic is checked through CONNECT (http_proxy) and through the authentication status (socks5) only", "dashboard and admin static assets (/static/) are not requested: the asset file system is only loaded by the frps/frpc main programs"},
 	})
 	reg(&propSpec{ID: "C03", Level: "exploration",
 		Batches: []batchSpec{
@@ -970,9 +971,14 @@ func writeEvidence(p *propSpec, tier string, seed uint64, st *batchStats, nviol 
 		"wall_s":      wall,
 		"violations":  nviol,
 	}
-	os.MkdirAll(filepath.Join(verifDir, "evidence"), 0o755)
+	evDir := filepath.Join(verifDir, "evidence")
+	if repoDir != "/repo" || os.Getenv("VERIF_ONLY_BATCH") != "" {
+		// a run against another tree (seeded-change evaluation) or a partial run is not evidence about /repo
+		evDir = filepath.Join(os.TempDir(), "verif-evidence-other")
+	}
+	os.MkdirAll(evDir, 0o755)
 	b, _ := json.MarshalIndent(ev, "", " ")
-	os.WriteFile(filepath.Join(verifDir, "evidence", p.ID+".json"), b, 0o644)
+	os.WriteFile(filepath.Join(evDir, p.ID+".json"), b, 0o644)
 }
 
 func selftest(which string, seed uint64, tier string) int {
